@@ -364,6 +364,13 @@ def _oracle_c11(ctx, desc, f0, specs, out, m, order, probe_of, idx_in, before, a
                     ok = ok and same_v
             if not ok:
                 V('cluster_metadata', '%s: %r != expected %r' % (t, dict(sorted(got.items())[:6]), dict(sorted(exp.items())[:6])), file=t)
+    # (4b) merged files are files of their own: a second name (hard link) of an input file would let a later write into the
+    # output rewrite the input
+    for fn in sorted(os.listdir(str(out))):
+        fp = os.path.join(str(out), fn)
+        if os.path.isfile(fp) and not os.path.islink(fp) and os.stat(fp).st_nlink > 1:
+            V('output_is_hard_link', 'merged file %s is a hard link (st_nlink=%d)' % (fn, os.stat(fp).st_nlink), file=fn)
+            break
     # (5) the returned model shows the same merged spikes
     rate = specs[0].sample_rate
     for name, got, exp in (('spike_samples', m.spike_samples, exp_t), ('spike_times', m.spike_times, exp_t / rate),
